@@ -189,8 +189,22 @@ func (r *nhRun) propose(nh *NodeHost, s *client.Session, cmd []byte) (string, st
 			return code, string(rr.GetResult().Data)
 		}
 		return code, ""
-	case <-time.After(r.p.opTimeout + 2*time.Second):
+	case <-time.After(r.p.opTimeout + 5*time.Second):
+		r.hung(nh, "propose")
 		return "timeout", ""
+	}
+}
+
+// hung records a request handle that produced no result five seconds after its deadline although
+// its NodeHost is still running (a closed or crashed NodeHost terminates its requests itself).
+func (r *nhRun) hung(nh *NodeHost, kind string) {
+	for i, h := range r.c.hosts {
+		r.hmu[i].RLock()
+		same := h.alive && h.nh == nh
+		r.hmu[i].RUnlock()
+		if same {
+			r.c.rec.emit("Hung", nhEv{"h": h.id, "kind": kind, "timeoutms": r.p.opTimeout.Milliseconds()})
+		}
 	}
 }
 
@@ -320,7 +334,8 @@ func (r *nhRun) client(cid int, seed int64, wg *sync.WaitGroup) {
 						out = "ok"
 					}
 				}
-			case <-time.After(r.p.opTimeout + 2*time.Second):
+			case <-time.After(r.p.opTimeout + 5*time.Second):
+				r.hung(nh, "readindex")
 			}
 			rs.Release()
 			r.res(cid, id, hid, inc, out, val)
@@ -727,6 +742,10 @@ func TestVerifNhsim(t *testing.T) {
 	case "member":
 		rec.keep = func(ev string) bool {
 			return ev == "Init" || ev == "CC" || ev == "Members" || ev == "Panic"
+		}
+	case "hang":
+		rec.keep = func(ev string) bool {
+			return ev == "Init" || ev == "Hung" || ev == "Panic" || ev == "Res" || ev == "Crash" || ev == "Fault"
 		}
 	case "quiesce":
 		rec.keep = func(ev string) bool {
